@@ -271,7 +271,7 @@ def rule_hd_update(cx, rep, port):
         from .. import snippet
         from .. import cfg as cfgmod
         fields = wr.args.args[1].arg
-        guards = [i for i in walk_no_nested(wr) if isinstance(i, ast.If) and snippet.alpha_equal(i.test, 'self.header_len is not None and len({0}) != self.header_len'.format(fields)) and any(isinstance(x, ast.Raise) for x in i.body)]
+        guards = [i for i in walk_no_nested(wr) if isinstance(i, ast.If) and snippet.alpha_equal(snippet.inline_single_defs(i.test, wr), 'self.header_len is not None and len({0}) != self.header_len'.format(fields)) and any(isinstance(x, ast.Raise) for x in i.body)]
         ok = False
         first = wr.body[0]
         if guards:
